@@ -23,8 +23,13 @@ def _export(od, doc_type, dest_kind):
         with contextlib.redirect_stdout(buf):
             export_od(od, None, doc_type)
         return buf.getvalue()
-    d = tempfile.mkdtemp(prefix="c14-")
-    path = os.path.join(d, "exported." + doc_type)
+    # file names: "file" -> exported.<type>; "file:<stem>" -> <stem>.<type> (stems may contain dots, also the
+    # other type's suffix); "filedir" -> a directory whose name contains a dot
+    stem = dest_kind.split(":", 1)[1] if ":" in dest_kind else "exported"
+    if stem == "other":
+        stem = "copy." + ("eds" if doc_type == "dcf" else "dcf")
+    d = tempfile.mkdtemp(prefix="c14.v2-" if dest_kind == "filedir" else "c14-")
+    path = os.path.join(d, stem + "." + doc_type)
     try:
         export_od(od, path)              # doc type selected by the suffix
         with open(path) as f:
@@ -230,9 +235,13 @@ def booleans(doc_type):
 def destinations(doc_type):
     """the destination kind does not change the document"""
     od = C.odmod().ObjectDictionary()
-    od.add_object(C.mkvar("Only var", 0x2000, 0, 0x06, "rw", default=sx.fresh_int("d", 0, 0xFFFF)))
+    od.add_object(C.mkvar("Only var", 0x2000, 0, 0x06, "rw", default=sx.fresh_int("d", 0, 0xFFFF),
+                          value=sx.fresh_int("pv", 0, 0xFFFF)))
+    od.node_id = 5            # what distinguishes a DCF from an EDS: commissioning data and parameter values
+    od.bitrate = 250000
     import re
-    texts = [_export(od, doc_type, k) for k in ("stream", "stdout", "file")]
+    kinds = ("stream", "stdout", "file", "file:drive.v2", "file:other", "filedir", "file:.hidden")
+    texts = [_export(od, doc_type, k) for k in kinds]
 
     def norm(t):
         # time stamps of FileInfo may differ between calls
@@ -240,6 +249,9 @@ def destinations(doc_type):
         return re.sub("\u00a7\\d+\\|", "\u00a7|", t)      # number tokens: ignore the per-rendering token id
     sx.prove(norm(texts[0]) == norm(texts[1]) == norm(texts[2]), "stream, stdout and file give the same document",
              "C14/destinations/%s" % doc_type)
+    for k, t in zip(kinds[3:], texts[3:]):
+        sx.prove(norm(t) == norm(texts[0]), "the document does not depend on the rest of the file name",
+                 "C14/destinations/%s/%s" % (doc_type, k))
     # file name without a known suffix -> EDS; explicit unknown doc type rejected
     try:
         sx.mod("canopen").export_od(od, io.StringIO(), "xml")
